@@ -15,13 +15,15 @@ META = {
     "graphs, so a workflow whose connections form a cycle ends with its ValueError before the loop starts (C18_sorting_iff, "
     "C18_cycle_is_reported, C18_acyclic_is_run, C18_witness_cycle; all graphs).  For every schedule: an iteration of the "
     "asynchronous loop that awaits a future ends with strictly more completed futures, and the number of such iterations of a "
-    "run is at most the number of jobs dispatched (C18_round_completes, C18_busy_rounds_bounded).  When nothing is pending, no "
+    "run is at most the number of jobs dispatched (C18_round_completes, C18_busy_rounds_bounded); in a fault-free run the environment can always complete a pending future (C18_environment_can_complete).  When nothing is pending, no "
     "task is runnable and further polls change nothing, the stall detector ends the submission with an error after its 11 "
     "polls (C18_stall_detector_gives_up, C18_stall_is_reported; witness C18_lost_after_seen_running).  PARTIAL: the termination "
     "statement assumes a worker that never reports a job complete without a result (C18_partial); C18_lost_result_livelock "
     "proves that otherwise, for a job never seen running, the loop neither awaits nor dispatches nor reaches the stall detector, "
-    "for any number of iterations (known finding D24).  Not proved: that a fault-free run cannot contain infinitely many "
-    "consecutive iterations that await nothing (exercised by the correspondence only).  Tied to the code by running acyclic "
+    "for any number of iterations (known finding D24).  Under that hypothesis (and max_concurrent >= 1): an iteration that "
+    "awaits nothing ends the submission, dispatches a job or starts a node (C18_idle_round_progress), every run performs at "
+    "most 2*(jobs dispatched) + (nodes) + 2 iterations (C18_fault_free_bound: each iteration increases a bounded potential) "
+    "and any longer schedule finds the submission ended (C18_fault_free_terminates).  Tied to the code by running acyclic "
     "workflows with failures, workflows with typed and untyped back edges (node.inputs.x = later.out), and lost-job schedules "
     "under the controlled worker, every submission under a watchdog.",
     "note": "Trusted: Lean kernel; hand-written models (Graph/Model.lean, Sched/Model.lean); asyncio.sleep(1) of the stall detector is "
@@ -44,6 +46,10 @@ OBLIGATIONS = [
         "C18_witness_cycle",
         "C18_round_completes",
         "C18_busy_rounds_bounded",
+        "C18_environment_can_complete",
+        "C18_idle_round_progress",
+        "C18_fault_free_bound",
+        "C18_fault_free_terminates",
         "C18_stall_detector_gives_up",
         "C18_stall_is_reported",
         "C18_lost_after_seen_running",
@@ -114,14 +120,13 @@ def gen_cases(rng, n):
 
 def correspondence(ctx):
     core.assert_repo_loaded()
-    # the known finding first
-    res = sched.explore(ctx, [dict(D24_WITNESS)], spec, "D24 witness", defect=d24)
+    # the witness of the known finding first, then the corpus, then generated cases (one batch)
+    res = sched.explore(ctx, [dict(D24_WITNESS)] + [dict(c) for c in CORPUS] + gen_cases(ctx.rng, ctx.pick(16, 160)), spec,
+                        "C18 termination", defect=d24)
     (_, o, iv, mv, _) = res[0]
     if any(f["id"] == "D24" for f in ctx.known()):
         ctx.finding("D24", o.get("outcome") == "LIVELOCK",
                     f"outcome {o.get('outcome')} after {len(o.get('rounds') or [])} loop iterations; model: {mv.get('outcome') if mv else None}")
-    sched.explore(ctx, [dict(c) for c in CORPUS], spec, "C18 corpus", defect=d24)
-    sched.explore(ctx, gen_cases(ctx.rng, ctx.pick(16, 260)), spec, "C18 termination", defect=d24)
 
 
 def search(ctx):
